@@ -120,6 +120,25 @@ def job_deviations(module, base_index, k, shard, nshards):
     return acc
 
 
+@worker
+def job_edits(module, max_chars, bi):
+    """Single-edit neighbourhood of the corpus and base documents (mc.docspace) through parser + compiler: every accepted variant."""
+    from . import docspace as DS
+    mod = importlib.import_module(module)
+    acc = Acc()
+    last = None
+    for text in DS.single_edits(DS.edit_bases(max_chars)[bi]):
+        a = I.parse(text)
+        if a[0] != 'ok':
+            acc.counters['parser_route_rejected'] += 1
+            continue
+        mod.check_ast(a[1], acc, {'kind': 'ast', 'ast': a[1], 'text': text, 'route': 'parser'})
+        last = text
+    if last is not None:
+        acc.sample({'family': 'single edits', 'text': last[:300]})
+    return acc
+
+
 def run_shapes(ctx, module, families, structure_n=(5, 6)):
     ns = 16
     mod = importlib.import_module(module)
@@ -130,6 +149,9 @@ def run_shapes(ctx, module, families, structure_n=(5, 6)):
     ctx.level('deviation documents k<=1 via parser', [job_deviations.job(module, b, 1, 0, 1) for b in range(nb)])
     if not ctx.quick:
         ctx.level('deviation documents k<=2 via parser', [job_deviations.job(module, b, 2, s, ns) for b in range(nb) for s in range(ns)])
+    from . import docspace as DS
+    mc = ctx.pick(250, 1500)
+    ctx.level('single edits of corpus and base documents <= %d characters via parser' % mc, [job_edits.job(module, mc, bi) for bi in range(len(DS.edit_bases(mc)))])
     n = ctx.pick(*structure_n)
     ctx.level('structure N<=%d via parser' % n, [job_structure.job(module, n, s, 192) for s in range(192)])
 
